@@ -137,6 +137,8 @@ func c06Inputs(root string) []c06Input {
 	add("tie-created-by", g(1, "running", "main.main", "", "/a/m.go", 1)+strings.TrimSuffix(g(2, "select", "main.f", "", "/a/b.go", 10), "\n")+"created by main.x\n\t/a/x.go:1 +0x1\n\n"+strings.TrimSuffix(g(3, "select", "main.f", "", "/a/b.go", 10), "\n")+"created by main.y\n\t/a/x.go:2 +0x1\n\n", plain, false)
 	// pointer distributions
 	add("pointers", g(1, "running", "main.main", "0xc000012340, 0xc000045678", "/a/m.go", 1)+g(2, "select", "main.f", "0xc000045678, 0xc0000789a0", "/a/b.go", 10)+g(3, "select", "main.f", "0xc0000789a0, 0xc000012340", "/a/b.go", 10)+g(4, "chan send", "main.h", "0xc0000aaaa0, 0xc0000aaaa0, {0xc0000bbbb0}", "/a/b.go", 12)+g(5, "chan send", "main.h", "0xc0000bbbb0, 0xc0000cccc0, {0xc0000cccc0}", "/a/b.go", 12), plain, false)
+	// a position that holds a pointer in some goroutines and a plain value in others
+	add("pointer-or-value", g(1, "running", "main.main", "", "/a/m.go", 1)+g(2, "select", "main.f", "0x0", "/a/b.go", 10)+g(3, "select", "main.f", "0xc000012340", "/a/b.go", 10)+g(4, "select", "main.f", "0x0", "/a/b.go", 10)+g(5, "select", "main.f", "0xc000045678", "/a/b.go", 10)+g(6, "select", "main.f", "0x5", "/a/b.go", 10), plain, false)
 	// race reports
 	add("race", string(c15Text([]uint64{0xc000012340, 0xc000045678, 0xc000012340, 0xc000045678, 5, 0xc000012340}, true)), plain, false)
 	// file-system layouts
@@ -157,6 +159,10 @@ func c06Inputs(root string) []c06Input {
 	add("fs-overlapping-gopaths", g(1, "running", "example.com/a.A", "", "/remote/gp/src/example.com/a/a.go", 3)+g(2, "select", "pkg.F", "0x1", "/remote/gp/src/nested/src/pkg/f.go", 10)+g(3, "select", "pkg.G", "0x1", "/remote/gp/src/nested/src/pkg/g.go", 11)+g(4, "select", "github.com/u/dep.D", "", "/remote/gp/pkg/mod/github.com/u/dep@v1.0.0/d.go", 2), fsOpts("gp1", "gp1/src/nested"), true)
 	add("fs-overlapping-gopaths-reversed", g(1, "running", "pkg.F", "0x1", "/remote/gp/src/nested/src/pkg/f.go", 10)+g(2, "select", "example.com/a.A", "", "/remote/gp/src/example.com/a/a.go", 3)+g(3, "select", "pkg.G", "0x1", "/remote/gp/src/nested/src/pkg/g.go", 11), fsOpts("gp1/src/nested", "gp1"), true)
 	add("fs-two-gopaths-goroot", g(1, "running", "fmt.Println", "", "/remote/go/src/fmt/print.go", 3)+g(2, "select", "example.com/a.A", "", "/r1/src/example.com/a/a.go", 3)+g(3, "select", "example.com/b.B", "", "/r2/src/example.com/b/b.go", 4)+g(4, "select", "example.com/b.B2", "", "/r2/src/example.com/b/missing.go", 4), fsOpts("gp1", "gp2"), true)
+	// the same remote roots as the inputs above, but nothing under them resolves
+	// locally (what an earlier input taught the process about a root must not leak)
+	add("fs-roots-unresolvable", g(1, "running", "nosuch.F", "", "/remote/go/src/nosuch/zz.go", 3)+g(2, "select", "example.com/none.N", "", "/r1/src/example.com/none/none.go", 3)+g(3, "select", "example.com/none2.N", "", "/remote/gp/src/example.com/none2/none.go", 4)+g(4, "select", "example.com/m.Missing", "", R+"/m/missing.go", 4), fsOpts("gp1", "gp2"), true)
+	add("fs-goroot-other-remote", g(1, "running", "fmt.Println", "", "/other/go/src/fmt/print.go", 3)+g(2, "select", "nosuch.F", "", "/remote/go/src/nosuch/zz.go", 3)+g(3, "select", "example.com/a.A", "", "/r2/src/example.com/a/a.go", 3), fsOpts("gp1", "gp2"), true)
 	return in
 }
 
@@ -455,4 +461,90 @@ func TestVerifC06Processes(t *testing.T) {
 			r.Record(key, xi != yi, fmt.Sprint(got == fresh[x])+x)
 		}
 	}
+}
+
+// TestVerifC06Agg (mapchoice build): Aggregate on every ordered triple of a universe
+// of goroutines that are pairwise "nearly similar" (same frame; the argument is a
+// pointer, another pointer, nil, a small value, an aggregate; locked or not; slept or
+// not) x 4 levels, under every order of every map loop (all loops have <= 3 keys, so
+// this is every order): one result per (triple, level).
+func TestVerifC06Agg(t *testing.T) {
+	r := h.Start("C06")
+	defer r.Finish(func(s string) { t.Error(s) })
+	if rv := r.ReplayFile(); rv != nil {
+		t.Logf("replay %s: %s\nexpected:\n%s\nobserved:\n%s", rv.Key, rv.Summary, rv.Expected, rv.Observed)
+		return
+	}
+	var u []sigAttr
+	argShapes := []int{0, 1, 2, 3, 4, 22, 5, 6, 8, 10, 13, 18, 20, 23, 25}
+	if r.Thorough() {
+		argShapes = nil
+		for i := range sigArgShapes {
+			argShapes = append(argShapes, i)
+		}
+	}
+	for _, a := range argShapes {
+		for lk := 0; lk < 2; lk++ {
+			for sl := 0; sl < 2; sl++ {
+				if !r.Thorough() && lk == 1 && sl == 1 {
+					continue
+				}
+				u = append(u, sigAttr{args: a, locked: lk, sleep: sl})
+			}
+		}
+	}
+	r.Set("aggregate_universe", len(u))
+	render := func(idx []int, level Similarity) (string, string) {
+		s := &Snapshot{}
+		for k, i := range idx {
+			g := u[i].build(true)
+			g.ID = aggIDs[k]
+			g.First = k == 0
+			s.Goroutines = append(s.Goroutines, g)
+		}
+		a, p := safeAggregate(s, level)
+		if p != "" {
+			return "", p
+		}
+		return describeBuckets(a), ""
+	}
+	seq := 0
+	vectors := 0
+	n := len(u)
+	for i := 0; i < n; i++ {
+		for j := 0; j < n; j++ {
+			for k := 0; k < n; k++ {
+				seq++
+				if !r.MineIdx(seq) || r.Expired() {
+					continue
+				}
+				idx := []int{i, j, k}
+				for level := ExactFlags; level <= AnyValue; level++ {
+					mc.Chooser = nil
+					ref, p := render(idx, level)
+					key := fmt.Sprintf("agg %v %s", idx, levelNames[level])
+					if p != "" {
+						r.Report(&h.Viol{Fingerprint: "C06/agg-panic:" + firstLine(p), Summary: key + ": " + firstLine(p), Key: key, Reproduced: 5})
+						continue
+					}
+					bad := false
+					nv, _ := h.Explore(-1, r.Expired, func(c *h.Ctx) {
+						if bad {
+							return
+						}
+						installChooser(c)
+						d, p := render(idx, level)
+						mc.Chooser = nil
+						if d != ref || p != "" {
+							bad = true
+							r.Report(&h.Viol{Fingerprint: "C06/aggregate-depends-on-map-order:" + levelNames[level], Summary: fmt.Sprintf("goroutines [%s | %s | %s] at %s: map iteration order %s changes the buckets", u[i], u[j], u[k], levelNames[level], c.Labels()), Key: key, Kind: "mapchoice-agg", Expected: ref, Observed: d + p, Reproduced: 5})
+						}
+					})
+					vectors += nv
+					r.Record(key, nv > 1, h.Hash(ref))
+				}
+			}
+		}
+	}
+	r.Add("aggregate_permutation_vectors", vectors)
 }
